@@ -9,7 +9,7 @@
    well-founded models WITH tuple cycles is not proved; it is checked on every run over explicit orders. *)
 From Coq Require Import Permutation.
 From Verif Require Import Base.Str Base.Outcome Model.Ast Model.Printer Model.WGraph Model.WWeights
-  Spec.GraphWeights Proofs.WeightsProofs Proofs.Witnesses Proofs.GraphPrims Proofs.DagWeights Proofs.DagCheck.
+  Spec.GraphWeights Proofs.WeightsProofs Proofs.Witnesses Proofs.GraphPrims Proofs.DagWeights Proofs.DagCheck Proofs.BuilderFresh Proofs.DagModel.
 
 (* 1. permuting the type definitions of the model changes nothing: same unweighted graph, hence same outcome
       for every start order *)
@@ -49,3 +49,10 @@ Theorem C06_acyclic_model_order_independent : forall m g o1 o2 g1 g2,
   forall x, In x (order_used o1 g) -> In x (order_used o2 g) -> is_terminal (n_type (node_of g x)) = false ->
     n_weights (node_of g1 x) = n_weights (node_of g2 x).
 Proof. exact acyclic_model_order_independent. Qed.
+
+(* 6. for graphs the builder made *)
+Theorem C06_built_graph_order_independent : forall m g, wbuild m = Ok g -> acyclic_check g = true ->
+  forall o1 o2 g1 g2, build_weighted o1 m = Ok g1 -> build_weighted o2 m = Ok g2 ->
+  forall x, In x (order_used o1 g) -> In x (order_used o2 g) -> is_terminal (n_type (node_of g x)) = false ->
+    n_weights (node_of g1 x) = n_weights (node_of g2 x).
+Proof. exact built_order_independent. Qed.
